@@ -127,7 +127,15 @@ class Interp:
             if fn.get("inits") and this is not None and isinstance(this, Obj):
                 for i in fn["inits"]:
                     if "field" in i:
-                        this.field(i["field"]).set(self.rvalue(i["init"], fr))
+                        ft = self.dom.field_type(this, i["field"])
+                        if ft.rstrip().endswith("&"):
+                            v = self.eval(i["init"], fr)
+                            v = v.get() if isinstance(v, Cell) else v
+                        else:
+                            v = self.dom.copy_value(self.rvalue(i["init"], fr), ft)
+                        this.field(i["field"]).set(v)
+                    elif "base" in i:
+                        self.dom.base_init(this, i, fr)
             self.exec(fn["body"], fr)
             ret = None
         except ReturnEx as r:
@@ -545,6 +553,21 @@ class Domain:
 
     def new_object(self, cls, e, fr):
         return Obj(cls)
+
+    def field_type(self, obj, name):
+        return ""
+
+    def base_init(self, this, init, fr):
+        e = init["init"]
+        if e.get("k") == "Construct":
+            cands = [f for f in self.interp.prog.fns(e.get("ctor", "")) if len(f["params"]) == len(e["args"])]
+            if cands:
+                args = self.interp.eval_args(cands[0], e["args"], fr)
+                self.interp.call_function(cands[0], this, args, e)
+                return
+            if not e["args"]:
+                return
+        raise AnalysisBroken("base-class initialiser not modelled at %s" % ir.locstr(init))
 
     def default_value(self, t, v, fr):
         return Undef(v["name"])
